@@ -583,7 +583,10 @@ fn cont_props(prop: &str, tier: &str, seed: u64, threads: usize, out: &str) {
             spread(&mut ctxs, nh, |i| {
                 let mut rng = Rng::new(seed.wrapping_mul(71).wrapping_add(i as u64));
                 let g = gen_search::random_graph(&mut rng, if i % 5 == 0 { 12 } else { 4 });
-                gen_cont::serde_history_case(all[i % 4], &format!("h{i}"), &g, &mut rng)
+                let mut l = gen_cont::serde_history_case(all[i % 4], &format!("h{i}"), &g, &mut rng);
+                // and a round trip over keys whose Display text and hashes collide (judged by the statement alone)
+                l.push(format!("g.rtlossy 0 {}", i * 7 + 1));
+                l
             });
             extra.insert("histories".into(), format!("{nh} graphs serialised after members were removed and inserted again"));
             // large documents (chunked or batched (de)serialisation): hundreds of edge records, long runs per source
